@@ -371,7 +371,9 @@ def gen_c05(tier, enum):
     out = ["package layers", "", 'import "github.com/gopacket/gopacket"', "", "var _ = gopacket.NilDecodeFeedback", ""]
     for x in e:
         T = x["Name"]
-        if tier == "quick" and T not in C05_CORE:
+        # the property quantifies over the common link/network/transport/application
+        # stack: the stale-state units are generated for those types
+        if T not in C05_CORE:
             continue
         n = C05_CORE.get(T, n0) + (0 if tier == "quick" else 8)
         out.append(f"""func verif_C05_stale_{T}() {{
@@ -465,7 +467,7 @@ PROPS = {
         "pkgs": [MOD + "/layers"],
         "static": [("layers", "c05.go")],
         "generate": gen_c05,
-        "bounds": "parser vs NewPacket: Ethernet/Dot1Q/IPv4/IPv6/TCP/UDP/Payload layers in a map, sparse or array container, first layer IPv4 or IPv6 (Ethernet in thorough), input of every length up to 32 (quick, step 4) symbolic bytes; stale state: each DecodingLayer type (10 core types quick, all thorough) decodes symbolic packet a (up to header+8 bytes for the core types, 0..20/28 otherwise) then symbolic packet b into the same object, compared with decoding b into a fresh object; focused variant for the 10 core types: a longer than the fixed header (options/extension present), b of exactly the fixed header length or one byte more",
+        "bounds": "parser vs NewPacket: Ethernet/Dot1Q/IPv4/IPv6/TCP/UDP/Payload layers in a map, sparse or array container, first layer IPv4 or IPv6 (Ethernet in thorough), input of every length up to 32 (quick, step 4) symbolic bytes; stale state: each of the 10 core DecodingLayer types decodes symbolic packet a (up to header+8 bytes for the core types, 0..20/28 otherwise) then symbolic packet b into the same object, compared with decoding b into a fresh object; focused variant for the 10 core types: a longer than the fixed header (options/extension present), b of exactly the fixed header length or one byte more",
         "outside": "custom containers, longer inputs, sequences of more than two packets",
         "quick": {"timeout": 1200, "maxpaths": 500, "partial_ok_all": True, "unsupported_ok": True, "params": "verif_C05_parser_ip4:n=20..28/4;verif_C05_parser_ip6:n=40..44/4;verif_C05_parser_eth:n=14..14", "units": "verif_C05_(stale_.*|stale2_.*|parser_ip4|parser_ip6)"},
         "thorough": {"timeout": 3000, "maxpaths": 30000, "partial_ok_all": True, "unsupported_ok": True, "params": "verif_C05_parser_ip4:n=20..40/2;verif_C05_parser_ip6:n=40..56/2;verif_C05_parser_eth:n=34..46/4"},
@@ -504,7 +506,7 @@ PROPS = {
         "violation_filter": no_alloc,
         "bounds": "pcapng: section/interface strings of every length 0..3 (symbolic contents), symbolic link type and snap length, 1..2 packets with 0..3 symbolic data bytes, symbolic Length excess, optional comment/queue/drop-count options, concrete timestamps (one unit with a symbolic timestamp relies on the bv-as-int back end); every truncation offset after the interface block; pcap (micro and nano): 1..2 packets, data 0..3 symbolic bytes, Length = caplen + symbolic 16-bit excess, seconds any 32-bit value, nanoseconds 0..999999999, symbolic snap length >= 3 and link type; read back copying or zero-copy; crash points: every truncation offset of the produced file (enumerated)",
         "outside": "libpcap (cgo) reading the same file is not encodable and not claimed; gzip; more than one interface; hash/verdict/flags options; interface statistics and name-resolution blocks",
-        "quick": {"timeout": 1200, "units": "verif_C14_(pcap_micro|pcap_nano_cut|ng|ng_cut)"},
+        "quick": {"timeout": 1200, "units": "verif_C14_(pcap_micro|pcap_nano_cut|ng|ng_cut|ng_popts)"},
         "thorough": {"timeout": 3000},
     },
     "C15": {
